@@ -178,12 +178,12 @@ def generate(rseed, tier, idx):
         if g.random() < 0.04:
             # VOLUME: a few hundred DISTINCT pairs that all need fixing (strict mode, cheap) - anything bounded by
             # "so many distinct colours / fixes per process" (cache capacity, eviction, housekeeping) is crossed here
-            k = g.randrange(1 << 20)
             heavy = []
-            for j in range(g.choice((300, 600))):
-                v = (k + 104729 * j) % 180
-                heavy.append([enc("#%02x%02x%02x" % (126 + v % 9, 126 + (v // 9) % 9, 120 + v % 40)), enc("#%02x%02x%02x" % (250 - j % 6, 250 - (j // 6) % 6, 255 - (j // 36) % 9))])
-            ops.insert(g.randrange(max(1, len(ops) // 2)), {"op": "bulk", "pairs": heavy, "mode": 0, "vr": False, "flood": True, "heavy": True})
+            for j in range(g.choice((400, 700))):
+                bg = gen.rand_rgb(g)
+                trgb, _ = gen.pick_text(g, bg, 4.5, g.choice(("fix", "mid")))
+                heavy.append([enc("#%02x%02x%02x" % trgb), enc("#%02x%02x%02x" % bg)])
+            ops.insert(g.randrange(max(1, len(ops) // 2)), {"op": "bulk", "pairs": heavy, "mode": g.choice((0, 1, 1)), "vr": False, "flood": True, "heavy": True})
         if g.random() < 0.3:
             # one translucent text spelling on different backgrounds at different points of the history
             txt = enc(gen.spell_alpha(g, gen.rand_rgb(g), g.choice((0.25, 0.5, 0.75)), g.choice(gen.ALPHA_SPELLINGS))[0])
